@@ -176,6 +176,7 @@ def SM(text, mappings, sources=('o.js',), contents=(), names=(), root=None, max=
 
 
 # consecutive lines from different files whose original lines are consecutive (the lines-only encoder's 'next line' shortcut)
+TREES_QUICK.append(('orig a;?b}?c over the alphabet with TAB (blanks after a terminator run)', O('a;?b}?c'), 't'))
 TREES_QUICK.append(('concat[orig ?/,sms(b -> o.js line 2)]', CC(O('?\n'), SM('b', 'AACA', ('o.js',)))))
 
 C13_QUICK += [
@@ -210,6 +211,8 @@ SMS_QUICK = [
     ('concat[sms(abc unnamed then named at one original position),rawstr1]', CC(SM('abc', 'AAAA,CAAAA,?AAA', ('o.js',), (), ('n1',)), RS('!'))),
     ('sms(abcdef/, zero-width mapped segment then an unmapped one at the same column)', SM('abcdef\n', 'AAAA,?AAE,A,EAAE', ('a.js',))),
     ('sms(abcd, mapped then unmapped at column 0)', SM('abcd', 'AAAA,A,?AAC', ('a.js',))),
+    ('concat[sms name foo,sms names foo+bar,sms name foo] (a name announced three times, a new one in between)', CC(SM('a', 'AAAAA', ('o.js',), (), ('foo',)), SM('bc', 'AAAAA,CAA?C', ('o.js',), (), ('foo', 'bar')), SM('d', 'AAAAA', ('o.js',), (), ('foo',)))),
+    ('concat[sms 2 sources,sms first source,sms third source,sms first source] (sources announced repeatedly)', CC(SM('a', 'AAAA', ('o.js',)), SM('bc', 'AAAA,CCAA', ('o.js', 'p.js')), SM('d', 'AAAA', ('o.js',)))),
     ('sms(ab, root ending in several slashes)', SM('ab', 'AAAA,CCAA', ('s/a.js', 'b.js'), (), (), 'webpack:///')),
 ]
 SMS_WILD = [
@@ -278,6 +281,8 @@ def SMC(text, outer, outer_sources, inner, inner_sources, original, name='i.js',
 
 
 COMBINED_QUICK = [
+    ('combined: second outer segment looks up the same inner line far to the LEFT of the first (symbolic column)', SMC('ddd aaa', 'AAAY,IAA?', ('i.js',), 'AAAA,IACA,IACA,IACA', ('orig.txt',), 'aaa bbb ccc ddd', max=32)),
+    ('combined: removed, other source, removed on one line (two outer sources, no inner mapping)', SMC('xxx LIB yyy', 'AAAA,ICAA,IDA?', ('i.js', 'lib.js'), ';AAAA', ('orig.txt',), 'xxx yyy\nz', remove=True, max=10)),
     ('combined: inner digits symbolic', SMC('ab\ncd', 'AAAA,CAAC;ACAA', ('i.js', 'o.js'), 'AAAA,?AA?;AA?A', ('q.js',), 'xyz\nuv', inner_contents=('01234\n567',))),
     ('combined: outer column into inner symbolic', SMC('abcd', 'AAA?,CAA?', ('i.js',), 'AAAA,CAAE,CAAC', ('q.js',), 'xyzw', inner_contents=('0123456',))),
     ('combined: remove original, partial inner', SMC('ab\ncd', 'AAAA,CAAC;AACA', ('i.js',), '?AAA', ('q.js',), 'xyz\nuv', remove=True)),
@@ -350,6 +355,10 @@ def replace_jobs(props):
                 jobs.append(J('tree:' + t[0], 'jobs.streams:tree_job', dict(tree=t[1], props=props, what=['source']), timeout=600))
             for t in MANY_QUICK:
                 jobs.append(J('tree:' + t[0], 'jobs.streams:tree_job', dict(tree=t[1], props=props, what=['source'], subs=False), timeout=600))
+        if 'C01' in props or 'C07' in props:
+            # every observer must use the same (stable) order of equal keys: source() against the chunk stream and rope()
+            t = MANY_QUICK[0]
+            jobs.append(J('tree:' + t[0] + ' [source vs stream]', 'jobs.streams:tree_job', dict(tree=t[1], props=props, what=['source', 'c1f0'], subs=False), timeout=600))
         if tier == 'thorough':
             for t in REPLACE_THOROUGH:
                 jobs.append(J('tree:' + t[0], 'jobs.streams:tree_job', dict(tree=t[1], props=props), required=False, timeout=900))
